@@ -102,6 +102,17 @@ def _guard(fd, var):
     return None
 
 
+def _loop_guard(fd, seq):
+    """guard on the loop variable of `for <v> in <seq>:` -> (_guard result, v)"""
+    for l in ast.walk(fd):
+        if isinstance(l, ast.For) and isinstance(l.target, ast.Name) \
+                and ast.unparse(l.iter) == seq:
+            g = _guard(l, l.target.id)
+            if g is not None:
+                return g
+    return None
+
+
 def _uses_as_subscript(fd, field, selfname):
     """is `<selfname>.<field>` used directly as the index of a subscript (not a slice)?"""
     for n in ast.walk(fd):
@@ -190,15 +201,19 @@ def r_axis(c):
                  "the node only inserts at / formats the position: ndim is admissible")
     # reductions and expand_dims validate their axes strictly
     ra = m.func("pytato.reductions._normalize_reduction_axes")
-    g = _guard(ra, "axis")
+    g = _loop_guard(ra, ra.args.args[1].arg)
     c.check(g is not None and g[0] == "0" and g[2] == "len(shape)" and g[3], "R03-AXIS",
             "reductions._normalize_reduction_axes", "axis:0<=axis<ndim",
             m.loc("pytato.reductions", ra),
             "reduction axes are not validated as 0 <= axis < ndim when the reduction is "
             "built")
     ed = m.func("pytato.array.expand_dims")
-    g = _guard(ed, "ax")
-    c.check(g is not None and g[0] == "-output_ndim" and g[2] == "output_ndim" and g[3],
+    from pta.pat import find
+    ap_, xp_ = ed.args.args[0].arg, ed.args.args[1].arg
+    nd_ = find(ed, f"$n = {ap_}.ndim + len({xp_})")
+    ndv = nd_[0]["$n"] if len(nd_) == 1 else "?"
+    g = _loop_guard(ed, xp_)
+    c.check(g is not None and g[0] == f"-{ndv}" and g[2] == ndv and g[3],
             "R03-AXIS", "array.expand_dims", "ax:-ndim<=ax<ndim",
             m.loc("pytato.array", ed), "expand_dims does not validate its axes")
     tr = m.func("pytato.array.transpose")
